@@ -10,6 +10,10 @@ sys.path.insert(0, os.path.join(REPO, "src"))
 logging.disable(logging.CRITICAL)
 _TMP = tempfile.mkdtemp(prefix="stab_replay_", dir=os.environ.get("TMPDIR", "/tmp"))
 DB = "sqlite:///" + os.path.join(_TMP, "p.db")
+import atexit  # noqa: E402
+import shutil  # noqa: E402
+
+atexit.register(shutil.rmtree, _TMP, True)  # scratch database of the scenario: removed when the script ends
 
 from stabilize import SqliteQueue, SqliteWorkflowStore, TaskResult  # noqa: E402
 from stabilize.models.stage import StageExecution  # noqa: E402
